@@ -4,6 +4,7 @@
 -/
 import SymfcModel.Lemmas.Cell
 import SymfcModel.Lemmas.SgPerm
+import SymfcModel.Lemmas.SgPermFull
 namespace Symfc.C14
 open Symfc Symfc.Cell
 
@@ -89,5 +90,78 @@ theorem composed_permutation_is_a_permutation (tp perm : List Nat) (N : Nat)
     (htp : tp.Perm (List.range N)) (hperm : perm.Perm (List.range N)) :
     (composeOut tp perm).Perm (List.range N) :=
   composeOut_perm tp perm N htp hperm
+
+open SgPermFull in
+/-- C14 MAIN on the full exact-arithmetic model of `compute_sg_permutations` (`Model/SgPermFull.lean`: pure-translation
+    loop with fast path and exact matching, first-occurrence scan of the unique rotations, matching of the rotated
+    positions, lookup of the lattice translation `t_i − t_first(i)`, composition `trans_perms[l][perms]`): if the
+    positions are pairwise distinct modulo the lattice, every listed operation maps the set of positions onto itself,
+    and for every operation the translation relative to the first operation with the same rotation is exactly one of
+    the listed pure translations (true when the operations form a group), then the function returns a table whose
+    every row is a permutation of the atoms and sends atom a to THE atom located at `R_i x_a + t_i`. -/
+theorem sg_permutations_represent_every_operation (S : Int) (ps : List (List Int))
+    (rots : List (List (List Int))) (trans : List (List Int))
+    (hps : ∀ p ∈ ps, p.length = 3) (hrots : ∀ R ∈ rots, R.length = 3) (htrans : ∀ t ∈ trans, t.length = 3)
+    (hn : rots.length = trans.length)
+    (hd : positionsDistinct S ps = true)
+    (hinto : ∀ i, i < rots.length → ∀ a, a < ps.length → ∃ b, b < ps.length ∧
+      Cong S (ps.getD b []) (applyOp S (rots.getD i []) (trans.getD i []) (ps.getD a [])))
+    (honto : ∀ i, i < rots.length → ∀ b, b < ps.length → ∃ a, a < ps.length ∧
+      Cong S (ps.getD b []) (applyOp S (rots.getD i []) (trans.getD i []) (ps.getD a [])))
+    (hlat : ∀ i, i < rots.length → ∃ l, l < (pureTranslations rots trans).length ∧
+      Cong S ((pureTranslations rots trans).getD l [])
+        (subVec (trans.getD i []) (trans.getD (firstOp rots i) [])) ∧
+      ∀ l', l' < (pureTranslations rots trans).length →
+        Cong S ((pureTranslations rots trans).getD l' [])
+          (subVec (trans.getD i []) (trans.getD (firstOp rots i) [])) → l' = l) :
+    ∃ out, sgPermutations S ps rots trans = some out ∧ out.length = rots.length ∧
+      ∀ i, i < rots.length → (out.getD i []).Perm (List.range ps.length) ∧
+        ∀ a, a < ps.length → Cong S (ps.getD ((out.getD i []).getD a 0) [])
+          (applyOp S (rots.getD i []) (trans.getD i []) (ps.getD a [])) :=
+  sgPermutations_represents_every_operation S ps rots trans hps hrots htrans hn hd hinto honto hlat
+
+open SgPermFull in
+/-- C14: … and the table is a HOMOMORPHISM: whenever operation k of the list is the product of operations i and j
+    (`R_k = R_i R_j`, `t_k ≡ R_i t_j + t_i`), `perm_k = perm_i ∘ perm_j`. -/
+theorem sg_permutations_compose_like_the_operations (S : Int) (ps : List (List Int))
+    (rots : List (List (List Int))) (trans : List (List Int))
+    (hps : ∀ p ∈ ps, p.length = 3) (hrots : ∀ R ∈ rots, R.length = 3)
+    (hrows : ∀ R ∈ rots, ∀ row ∈ R, row.length = 3) (htrans : ∀ t ∈ trans, t.length = 3)
+    (hn : rots.length = trans.length)
+    (hd : positionsDistinct S ps = true)
+    (hinto : ∀ i, i < rots.length → ∀ a, a < ps.length → ∃ b, b < ps.length ∧
+      Cong S (ps.getD b []) (applyOp S (rots.getD i []) (trans.getD i []) (ps.getD a [])))
+    (honto : ∀ i, i < rots.length → ∀ b, b < ps.length → ∃ a, a < ps.length ∧
+      Cong S (ps.getD b []) (applyOp S (rots.getD i []) (trans.getD i []) (ps.getD a [])))
+    (hlat : ∀ i, i < rots.length → ∃ l, l < (pureTranslations rots trans).length ∧
+      Cong S ((pureTranslations rots trans).getD l [])
+        (subVec (trans.getD i []) (trans.getD (firstOp rots i) [])) ∧
+      ∀ l', l' < (pureTranslations rots trans).length →
+        Cong S ((pureTranslations rots trans).getD l' [])
+          (subVec (trans.getD i []) (trans.getD (firstOp rots i) [])) → l' = l)
+    (out : List (List Nat)) (hout : sgPermutations S ps rots trans = some out)
+    (i j k : Nat) (hi : i < rots.length) (hj : j < rots.length) (hk : k < rots.length)
+    (hR : rots.getD k [] = matMul3 (rots.getD i []) (rots.getD j []))
+    (ht : Cong S (trans.getD k []) (applyOp S (rots.getD i []) (trans.getD i []) (trans.getD j []))) :
+    ∀ a, a < ps.length → (out.getD k []).getD a 0 = (out.getD i []).getD ((out.getD j []).getD a 0) 0 :=
+  homomorphism S ps rots trans hps hrots hrows htrans hn hd hinto honto hlat out hout i j k hi hj hk hR ht
+
+open SgPermFull in
+/-- C14: exact matching (the distance fall-back and the rotation matching on exactly periodic inputs) is sound and
+    complete: it returns σ iff σ is the permutation with `x_{σ i} ≡ y_i`. -/
+theorem exact_matching_is_sound_and_complete (S : Int) (d : Nat) (ps qs : List (List Int)) (σ : List Nat)
+    (hps : ∀ x ∈ ps, x.length = d) (hqs : ∀ x ∈ qs, x.length = d) (hlen : qs.length = ps.length)
+    (hd : positionsDistinct S ps = true) :
+    exactMatch S ps qs = some σ ↔
+      (σ.Perm (List.range ps.length) ∧ ∀ i, i < ps.length → Cong S (ps.getD (σ.getD i 0) []) (qs.getD i [])) :=
+  ⟨fun h => let r := B1_exactMatch_sound S d ps qs σ hps hqs hlen hd h; ⟨r.2.1, r.2.2.1⟩,
+   fun h => B2_exactMatch_complete S d ps qs σ hps hlen hd h.1 h.2⟩
+
+/-- non-vacuity: on a concrete structure (N = 4, two lattice points × two basis atoms, S = 8) with the four operations
+    {identity, lattice translation, an inversion, their product} the hypotheses above hold and the model evaluates to
+    an explicit table -/
+theorem sg_permutations_demo :
+    sgPermutations 8 SgPermFull.demoPs SgPermFull.demoRots SgPermFull.demoTrans =
+      some [[0, 1, 2, 3], [1, 0, 3, 2], [2, 3, 0, 1], [3, 2, 1, 0]] := SgPermFull.demo_eval
 
 end Symfc.C14
